@@ -463,11 +463,20 @@ func OptionVariant(e *Entry, seed int64, k int) *Entry {
 	r := rand.New(rand.NewSource(seed*7919 + int64(k)*104729 + 5))
 	c := e.Cfg
 	c.ExcludeFields, c.RequiredFields, c.ComputedFields, c.SensitiveFields = nil, nil, nil, nil
-	c.NameOverrides, c.Validators, c.PlanModifiers, c.InjectedFields = nil, nil, nil, nil
+	c.Validators, c.PlanModifiers, c.InjectedFields = nil, nil, nil
 	customs, suff := c.CustomTypes, c.Suffixes
+	overrides := c.NameOverrides
+	c.NameOverrides = nil
 	randFieldOptions(r, e.File, c)
 	if customs != nil {
 		c.CustomTypes, c.Suffixes = customs, suff
+	}
+	// the entry's own name overrides stay (acronym names have no documented attribute name without them)
+	for k, v := range overrides {
+		if c.NameOverrides == nil {
+			c.NameOverrides = map[string]string{}
+		}
+		c.NameOverrides[k] = v
 	}
 	for _, m := range e.File.Messages {
 		for _, fl := range m.Fields {
